@@ -33,6 +33,7 @@ Section Gas.
   (* ------------------------------------------------------------------------------------ *)
   Section Estimate.
     Context {Out : Type}.                       (* return data *)
+    Variable safe : bool.                     (* which arithmetic: see loop_guard *)
     Variable checks : bool.                   (* overflow-checks of the build *)
     Variable cap : N.                         (* CONFIG.evm_call_gas_limit *)
     (* one read_contract(tx, height, Some gas): None = Err (revm refused the transaction),
@@ -42,29 +43,38 @@ Section Gas.
     Definition succ (g : N) : bool :=
       match run g with Some (true, _) => true | _ => false end.
 
-    (* while lower + GAS_PER_BYTE < upper { mid = (lower + upper) / 2; ... }; returns upper.
-       None = out of fuel (never with fuel 64: bisection_terminates). *)
+    (* The loop guard and the midpoint, in the two arithmetics the code has had:
+       safe = false:  while lower + GAS_PER_BYTE < upper { mid = (lower + upper) / 2; ... }
+       safe = true :  while upper.saturating_sub(lower) > GAS_PER_BYTE { mid = lower + (upper - lower) / 2; ... }
+       (the second after "fix: ... bisection overflowed u64"; which one the compiled crate has is
+       reflected into BrcGen.Consts.ESTIMATE_ARITH_SAFE by `hx reflect`). *)
+    Definition loop_guard (lo hi : N) : res bool :=
+      if safe then Ok (GPB <? hi - lo)
+      else match add64 checks lo GPB with Ok s => Ok (s <? hi) | Err => Err | Panic => Panic end.
+    Definition midpoint (lo hi : N) : res N :=
+      if safe then Ok (lo + (hi - lo) / 2)
+      else match add64 checks lo hi with Ok t => Ok (t / 2) | Err => Err | Panic => Panic end.
+
+    (* the loop; returns upper.  None = out of fuel (never with fuel 64: bisection_terminates). *)
     Fixpoint bisect (fuel : nat) (lo hi : N) : option (res N) :=
       match fuel with
       | O => None
       | S f =>
-          match add64 checks lo GPB with
-          | Ok s =>
-              if s <? hi then
-                match add64 checks lo hi with
-                | Ok t =>
-                    let mid := t / 2 in
-                    if succ mid then bisect f lo mid
-                    else
-                      match add64 checks mid 1 with
-                      | Ok l => bisect f l hi
-                      | Err => Some Err
-                      | Panic => Some Panic
-                      end
-                | Err => Some Err
-                | Panic => Some Panic
-                end
-              else Some (Ok hi)
+          match loop_guard lo hi with
+          | Ok true =>
+              match midpoint lo hi with
+              | Ok mid =>
+                  if succ mid then bisect f lo mid
+                  else
+                    match add64 checks mid 1 with
+                    | Ok l => bisect f l hi
+                    | Err => Some Err
+                    | Panic => Some Panic
+                    end
+              | Err => Some Err
+              | Panic => Some Panic
+              end
+          | Ok false => Some (Ok hi)
           | Err => Some Err
           | Panic => Some Panic
           end
@@ -87,6 +97,7 @@ Section Gas.
      the whole batch with the current vector of limits; position i is looked at.            *)
   (* ------------------------------------------------------------------------------------ *)
   Section EstimateMany.
+    Variable safe : bool.
     Variable checks : bool.
     Variable cap : N.
     (* one read_contract_multi(batch, limits): None = Err, Some statuses otherwise *)
@@ -108,24 +119,22 @@ Section Gas.
       match fuel with
       | O => None
       | S f =>
-          match add64 checks lo GPB with
-          | Ok s =>
-              if s <? hi then
-                match add64 checks lo hi with
-                | Ok t =>
-                    let mid := t / 2 in
-                    let gs' := set_nth gs i mid in
-                    if succm i gs' then bisect_m f i gs' lo mid
-                    else
-                      match add64 checks mid 1 with
-                      | Ok l => bisect_m f i gs' l hi
-                      | Err => Some Err
-                      | Panic => Some Panic
-                      end
-                | Err => Some Err
-                | Panic => Some Panic
-                end
-              else Some (Ok (set_nth gs i hi))
+          match loop_guard safe checks lo hi with
+          | Ok true =>
+              match midpoint safe checks lo hi with
+              | Ok mid =>
+                  let gs' := set_nth gs i mid in
+                  if succm i gs' then bisect_m f i gs' lo mid
+                  else
+                    match add64 checks mid 1 with
+                    | Ok l => bisect_m f i gs' l hi
+                    | Err => Some Err
+                    | Panic => Some Panic
+                    end
+              | Err => Some Err
+              | Panic => Some Panic
+              end
+          | Ok false => Some (Ok (set_nth gs i hi))
           | Err => Some Err
           | Panic => Some Panic
           end
